@@ -1169,9 +1169,723 @@ fn shift_group<R: ModeTag, const B: Word>(out: &mut Out, ctx: &Ctx, what: &str, 
     agree(out, what, Ret, v);
 }
 
+// ------------------------------------------------------------------------------------------------
+// rationals: RBig and Relaxed
+// ------------------------------------------------------------------------------------------------
+
+#[derive(Debug, Clone, Hash, Serialize, Deserialize)]
+struct Rat {
+    num: Int,
+    den: Nat,
+}
+
+#[derive(Debug, Clone, Hash, Serialize, Deserialize)]
+struct RatCase {
+    a: Rat,
+    b: Rat,
+    i: Int,
+    k: u8,
+    sneg: bool,
+}
+
+fn rat_prof() -> BoxedStrategy<Nat> {
+    prop_oneof![6 => gen::nat(Prof::Tiny), 3 => gen::nat(Prof::Small), 1 => gen::nat_len(13, 40)].boxed()
+}
+
+fn rat_case() -> impl Strategy<Value = RatCase> {
+    ((rat_prof(), rat_prof(), any::<bool>()), (rat_prof(), rat_prof(), any::<bool>()), 0u8..10, (gen::int(Prof::Small), 0u8..6, any::<bool>(), any::<u64>())).prop_map(
+        |((an, ad, asg), (bn, bd, bsg), rel, (i, k, sneg, s))| {
+            let nz = |n: Nat| if n.is_zero() { Nat(vec![1]) } else { n };
+            let ad = nz(ad);
+            let mut bd = nz(bd);
+            let mut bn = bn;
+            match rel {
+                0 => bd = ad.clone(),                                                        // equal denominators
+                1 => bd = Nat::from_big(&(ad.big() * BigUint::from(s % 7 + 2))),             // shared factor
+                2 => bn = Nat::from_big(&(ad.big() * BigUint::from(s % 5 + 1))),             // b's numerator shares with a's denominator
+                3 => bn = Nat(vec![]),                                                       // zero divisor
+                4 => {
+                    bn = an.clone();
+                    bd = ad.clone();
+                }
+                _ => {}
+            }
+            let a = Rat { num: Int { neg: asg && !an.is_zero(), mag: an }, den: ad };
+            let b = Rat { num: Int { neg: bsg && !bn.is_zero(), mag: bn }, den: bd };
+            RatCase { a, b, i, k, sneg }
+        },
+    )
+}
+
+macro_rules! rat_type_forms {
+    ($out:ident, $c:ident, $T:ident, $tn:expr) => {{
+        let a = $T::from_parts($c.a.num.ibig(), $c.a.den.ubig());
+        let b = $T::from_parts($c.b.num.ibig(), $c.b.den.ubig());
+        let bz = $c.b.num.is_zero();
+        let az = $c.a.num.is_zero();
+        macro_rules! arith {
+            ($name:expr, $op:tt, $opa:tt, $exp:expr) => {{
+                let mut v: Forms = Vec::new();
+                bin4!(v, a, b, $op);
+                asg2!(v, a, b, $opa);
+                agree(&mut $out, concat!($tn, " ", $name), $exp, v)
+            }};
+        }
+        let r_add = arith!("add", +, +=, Ret);
+        let r_sub = arith!("sub", -, -=, Ret);
+        let r_mul = arith!("mul", *, *=, Ret);
+        let r_div = arith!("div", /, /=, if bz { Pan } else { Ret });
+        let r_rem = arith!("rem", %, %=, if bz { Pan } else { Ret });
+        let mut v: Forms = Vec::new();
+        met4pair!(v, a, b, div_euclid, rem_euclid);
+        met4!(v, a, b, div_rem_euclid);
+        let r_euc = agree(&mut $out, concat!($tn, " div/rem (Euclidean)"), if bz { Pan } else { Ret }, v);
+        // integers on either side
+        let (ui, ii) = ($c.i.mag.ubig(), $c.i.ibig());
+        let iz = $c.i.is_zero();
+        macro_rules! with_int {
+            ($i:ident, $in:expr, $name:expr, $op:tt, $expr:expr, $expl:expr) => {{
+                let mut v: Forms = Vec::new();
+                bin4!(v, a, $i, $op);
+                v.push(("int converted with From", fv!(&a $op $T::from($i.clone()))));
+                agree(&mut $out, concat!($tn, " ", $name, " ", $in), $expr, v);
+                let mut v: Forms = Vec::new();
+                bin4!(v, $i, a, $op);
+                v.push(("int converted with From", fv!($T::from($i.clone()) $op &a)));
+                agree(&mut $out, concat!($in, " ", $name, " ", $tn), $expl, v);
+            }};
+        }
+        with_int!(ui, "UBig", "add", +, Ret, Ret);
+        with_int!(ii, "IBig", "add", +, Ret, Ret);
+        with_int!(ui, "UBig", "sub", -, Ret, Ret);
+        with_int!(ii, "IBig", "sub", -, Ret, Ret);
+        with_int!(ui, "UBig", "mul", *, Ret, Ret);
+        with_int!(ii, "IBig", "mul", *, Ret, Ret);
+        with_int!(ui, "UBig", "div", /, if iz { Pan } else { Ret }, if az { Pan } else { Ret });
+        with_int!(ii, "IBig", "div", /, if iz { Pan } else { Ret }, if az { Pan } else { Ret });
+        // powers
+        let mut v: Forms = Vec::new();
+        v.push(("sqr()", fv!(a.sqr())));
+        v.push(("a*a ref.ref", fv!(&a * &a)));
+        v.push(("a*a val.val", fv!(a.clone() * a.clone())));
+        v.push(("a*=a ref", fv!({ let mut x = a.clone(); x *= &a; x })));
+        v.push(("pow(2)", fv!(a.pow(2))));
+        agree(&mut $out, concat!($tn, " square"), Ret, v);
+        let mut v: Forms = Vec::new();
+        v.push(("cubic()", fv!(a.cubic())));
+        v.push(("a*a*a", fv!(&a * &a * &a)));
+        v.push(("pow(3)", fv!(a.pow(3))));
+        agree(&mut $out, concat!($tn, " cube"), Ret, v);
+        let k = $c.k as usize;
+        let mut v: Forms = Vec::new();
+        v.push(("pow(k)", fv!(a.pow(k))));
+        v.push(("fold * ref", fv!((0..k).fold($T::ONE, |acc, _| acc * &a))));
+        agree(&mut $out, concat!($tn, " pow"), Ret, v);
+        // sign
+        let mut v: Forms = Vec::new();
+        v.push(("neg val", fv!(-a.clone())));
+        v.push(("neg ref", fv!(-&a)));
+        v.push(("a * Sign::Negative", fv!(a.clone() * Sign::Negative)));
+        v.push(("0 - a", fv!($T::ZERO - &a)));
+        agree(&mut $out, concat!($tn, " neg"), Ret, v);
+        let mut v: Forms = Vec::new();
+        v.push(("abs val", fv!(a.clone().abs())));
+        v.push(("a * a.sign()", fv!(a.clone() * a.sign())));
+        agree(&mut $out, concat!($tn, " abs"), Ret, v);
+        let mut v: Forms = Vec::new();
+        v.push(("inv val", fv!(a.clone().inv())));
+        v.push(("inv ref", fv!((&a).inv())));
+        v.push(("ONE / a", fv!($T::ONE / &a)));
+        agree(&mut $out, concat!($tn, " inv"), if az { Pan } else { Ret }, v);
+        [r_add, r_sub, r_mul, r_div, r_rem, r_euc]
+    }};
+}
+
+fn rational_forms(c: &RatCase, _ctx: &Ctx) -> Out {
+    let mut out = Out::new();
+    let ls = [c.a.num.mag.trimmed_len(), c.a.den.trimmed_len(), c.b.num.mag.trimmed_len(), c.b.den.trimmed_len()];
+    out.nontrivial(ls.iter().any(|l| *l > 1));
+    out.label(gen::repr_class(*ls.iter().max().unwrap()));
+    if c.b.num.is_zero() {
+        out.label("divisor:zero (all forms must panic)");
+    }
+    if c.a.den == c.b.den {
+        out.label("denominators:equal");
+    }
+    let r1 = rat_type_forms!(out, c, RBig, "RBig");
+    let r2 = rat_type_forms!(out, c, Relaxed, "Relaxed");
+    // the two rational types are two forms of the same operation as well (value level)
+    let names = ["add", "sub", "mul", "div", "rem", "div/rem (Euclidean)"];
+    for ((x, y), n) in r1.into_iter().zip(r2.into_iter()).zip(names) {
+        if let (Some(x), Some(y)) = (x, y) {
+            agree(&mut out, &format!("RBig vs Relaxed {n}"), Any, vec![("RBig", x), ("Relaxed", y)]);
+        }
+    }
+    out
+}
+
+// ------------------------------------------------------------------------------------------------
+// modular ring elements
+// ------------------------------------------------------------------------------------------------
+
+#[derive(Debug, Clone, Hash, Serialize, Deserialize)]
+struct RingCase {
+    m: Nat,
+    a: Int,
+    b: Int,
+    e: Nat,
+}
+
+fn ring_case() -> impl Strategy<Value = RingCase> {
+    (
+        prop_oneof![3 => gen::nat_len(1, 1), 3 => gen::nat_len(2, 2), 4 => gen::nat_len(3, 6), 1 => gen::nat_len(7, 40), 1 => (1u64..50).prop_map(|w| Nat(vec![w]))],
+        gen::int(Prof::Small),
+        gen::int(Prof::Small),
+        prop_oneof![3 => (0u64..20).prop_map(|w| Nat(vec![w])), 1 => gen::nat_len(1, 2)],
+        0u8..8,
+    )
+        .prop_map(|(m, a, b, e, rel)| {
+            let mut m = if m.is_zero() { Nat(vec![1]) } else { m };
+            if rel >= 5 {
+                m.0[0] |= 1; // odd modulus: most elements invertible
+            }
+            let b = match rel {
+                0 => Int::default(),                               // zero: not invertible
+                1 => Int { neg: false, mag: m.clone() },           // ≡ 0
+                2 => a.clone(),
+                3 => Int { neg: !a.neg, mag: a.mag.clone() },      // a + b ≡ 0
+                _ => b,
+            };
+            RingCase { m, a, b, e }
+        })
+}
+
+fn ring_forms(c: &RingCase, ctx: &Ctx) -> Out {
+    let mut out = Out::new();
+    let lm = c.m.trimmed_len();
+    out.nontrivial(lm > 1 || c.a.mag.trimmed_len() > 1);
+    out.label(match lm {
+        1 => "ring:single word",
+        2 => "ring:double word",
+        _ => "ring:large",
+    });
+    let ring = ConstDivisor::new(c.m.ubig());
+    let a = ring.reduce(c.a.ibig());
+    let b = ring.reduce(c.b.ibig());
+    macro_rules! arith {
+        ($name:expr, $op:tt, $opa:tt, $exp:expr) => {{
+            let mut v: Forms = Vec::new();
+            bin4!(v, a, b, $op);
+            asg2!(v, a, b, $opa);
+            agree(&mut out, concat!("Reduced ", $name), $exp, v)
+        }};
+    }
+    arith!("add", +, +=, Ret);
+    arith!("sub", -, -=, Ret);
+    arith!("mul", *, *=, Ret);
+    {
+        let mut v: Forms = Vec::new();
+        bin4!(v, a, b, /);
+        asg2!(v, a, b, /=);
+        v.push(("a * b.inv().unwrap()", fv!(&a * b.inv().unwrap())));
+        if let Some(Err(_)) = agree(&mut out, "Reduced div", Any, v) {
+            out.label("divisor:not invertible (all forms must panic)");
+        }
+    }
+    let mut v: Forms = Vec::new();
+    v.push(("neg val", fv!(-a.clone())));
+    v.push(("neg ref", fv!(-&a)));
+    v.push(("0 - a", fv!(ring.reduce(0u8) - &a)));
+    agree(&mut out, "Reduced neg", Ret, v);
+    let mut v: Forms = Vec::new();
+    v.push(("sqr()", fv!(a.sqr())));
+    v.push(("a*a ref.ref", fv!(&a * &a)));
+    v.push(("a*a val.val", fv!(a.clone() * a.clone())));
+    v.push(("a*=a ref", fv!({ let mut x = a.clone(); x *= &a; x })));
+    v.push(("pow(2)", fv!(a.pow(&UBig::from(2u8)))));
+    agree(&mut out, "Reduced square", Ret, v);
+    // pow against repeated multiplication for small exponents
+    if c.e.trimmed_len() <= 1 && c.e.0.first().copied().unwrap_or(0) <= 20 {
+        let k = c.e.0.first().copied().unwrap_or(0);
+        let mut v: Forms = Vec::new();
+        v.push(("pow(e)", fv!(a.pow(&c.e.ubig()))));
+        v.push(("fold * ref", fv!((0..k).fold(ring.reduce(1u8), |acc, _| acc * &a))));
+        let m_is_one = lm == 1 && c.m.0[0] == 1;
+        if m_is_one && k == 0 {
+            // registered by C13: pow(0) in the ring of modulus 1 gives residue 1 (or a debug assertion)
+            account("Reduced pow", &v);
+            if disagreement("Reduced pow", &v).is_some() {
+                out.label("known:pow(0) modulus 1");
+                ctx.known_or_fail(&mut out, "C13/pow0-modulus-one", || "Reduced::pow(0) with modulus 1 differs from the empty product".into());
+            }
+        } else {
+            agree(&mut out, "Reduced pow", Ret, v);
+        }
+    } else {
+        out.label("ring:large exponent (pow not folded)");
+    }
+    out
+}
+
+// ------------------------------------------------------------------------------------------------
+// Sum / Product
+// ------------------------------------------------------------------------------------------------
+
+#[derive(Debug, Clone, Hash, Serialize, Deserialize)]
+struct IterCase {
+    /// (numerator / significand, denominator, exponent)
+    items: Vec<(Int, Nat, i8)>,
+}
+
+fn iter_case() -> impl Strategy<Value = IterCase> {
+    vec((gen::int(Prof::Small), gen::nat_nz(Prof::Tiny), -8i8..=8), 0..=6).prop_map(|items| IterCase { items })
+}
+
+macro_rules! fold_forms {
+    ($out:ident, $tn:expr, $T:ty, $xs:ident, $zero:expr, $one:expr) => {{
+        let xs: &Vec<$T> = &$xs;
+        let mut v: Forms = Vec::new();
+        v.push(("iter().sum()", fv!(xs.iter().sum::<$T>())));
+        v.push(("into_iter().sum()", fv!(xs.clone().into_iter().sum::<$T>())));
+        v.push(("fold + ref", fv!(xs.iter().fold($zero, |acc, x| acc + x))));
+        v.push(("fold + val", fv!(xs.iter().fold($zero, |acc, x| acc + x.clone()))));
+        v.push(("fold += ref", fv!({ let mut acc = $zero; for x in xs { acc += x; } acc })));
+        v.push(("fold += val", fv!({ let mut acc = $zero; for x in xs { acc += x.clone(); } acc })));
+        agree(&mut $out, concat!($tn, " Sum"), Ret, v);
+        let mut v: Forms = Vec::new();
+        v.push(("iter().product()", fv!(xs.iter().product::<$T>())));
+        v.push(("into_iter().product()", fv!(xs.clone().into_iter().product::<$T>())));
+        v.push(("fold * ref", fv!(xs.iter().fold($one, |acc, x| acc * x))));
+        v.push(("fold * val", fv!(xs.iter().fold($one, |acc, x| acc * x.clone()))));
+        v.push(("fold *= ref", fv!({ let mut acc = $one; for x in xs { acc *= x; } acc })));
+        v.push(("fold *= val", fv!({ let mut acc = $one; for x in xs { acc *= x.clone(); } acc })));
+        agree(&mut $out, concat!($tn, " Product"), Ret, v);
+    }};
+}
+
+macro_rules! fold_only {
+    ($out:ident, $tn:expr, $T:ty, $xs:ident, $zero:expr, $one:expr) => {{
+        let xs: &Vec<$T> = &$xs;
+        let mut v: Forms = Vec::new();
+        v.push(("fold + ref", fv!(xs.iter().fold($zero, |acc, x| acc + x))));
+        v.push(("fold + val", fv!(xs.iter().fold($zero, |acc, x| acc + x.clone()))));
+        v.push(("fold ref + val", fv!(xs.iter().fold($zero, |acc, x| &acc + x.clone()))));
+        v.push(("fold += ref", fv!({ let mut acc = $zero; for x in xs { acc += x; } acc })));
+        v.push(("fold += val", fv!({ let mut acc = $zero; for x in xs { acc += x.clone(); } acc })));
+        agree(&mut $out, concat!($tn, " fold add"), Ret, v);
+        let mut v: Forms = Vec::new();
+        v.push(("fold * ref", fv!(xs.iter().fold($one, |acc, x| acc * x))));
+        v.push(("fold * val", fv!(xs.iter().fold($one, |acc, x| acc * x.clone()))));
+        v.push(("fold ref * val", fv!(xs.iter().fold($one, |acc, x| &acc * x.clone()))));
+        v.push(("fold *= ref", fv!({ let mut acc = $one; for x in xs { acc *= x; } acc })));
+        v.push(("fold *= val", fv!({ let mut acc = $one; for x in xs { acc *= x.clone(); } acc })));
+        agree(&mut $out, concat!($tn, " fold mul"), Ret, v);
+    }};
+}
+
+fn iter_forms(c: &IterCase, _ctx: &Ctx) -> Out {
+    let mut out = Out::new();
+    out.nontrivial(c.items.len() >= 2 && c.items.iter().any(|x| x.0.mag.trimmed_len() > 1));
+    out.label(match c.items.len() {
+        0 => "iter:empty",
+        1 => "iter:one item",
+        _ => "iter:several items",
+    });
+    let us: Vec<UBig> = c.items.iter().map(|x| x.0.mag.ubig()).collect();
+    let is: Vec<IBig> = c.items.iter().map(|x| x.0.ibig()).collect();
+    let rs: Vec<RBig> = c.items.iter().map(|x| RBig::from_parts(x.0.ibig(), x.1.ubig())).collect();
+    let ls: Vec<Relaxed> = c.items.iter().map(|x| Relaxed::from_parts(x.0.ibig(), x.1.ubig())).collect();
+    fold_forms!(out, "UBig", UBig, us, UBig::ZERO, UBig::ONE);
+    fold_forms!(out, "IBig", IBig, is, IBig::ZERO, IBig::ONE);
+    // dashu-ratio has no Sum / Product impls (rational/src/iter.rs is not part of the crate: lib.rs
+    // lacks `mod iter;`), so only the folds are compared for the rational types
+    fold_only!(out, "RBig", RBig, rs, RBig::ZERO, RBig::ONE);
+    fold_only!(out, "Relaxed", Relaxed, ls, Relaxed::ZERO, Relaxed::ONE);
+    // primitive items summed into a big integer
+    let ws: Vec<u64> = c.items.iter().map(|x| x.0.mag.0.first().copied().unwrap_or(0)).collect();
+    let mut v: Forms = Vec::new();
+    v.push(("iter().sum() of &u64", fv!(ws.iter().sum::<UBig>())));
+    v.push(("copied().sum() of u64", fv!(ws.iter().copied().sum::<UBig>())));
+    v.push(("map(UBig::from).sum()", fv!(ws.iter().map(|w| UBig::from(*w)).sum::<UBig>())));
+    v.push(("sum::<IBig>() of u64", fv!(ws.iter().copied().sum::<IBig>())));
+    agree(&mut out, "UBig Sum of u64", Ret, v);
+    let mut v: Forms = Vec::new();
+    v.push(("iter().product() of &u64", fv!(ws.iter().product::<UBig>())));
+    v.push(("copied().product() of u64", fv!(ws.iter().copied().product::<UBig>())));
+    v.push(("map(UBig::from).product()", fv!(ws.iter().map(|w| UBig::from(*w)).product::<UBig>())));
+    agree(&mut out, "UBig Product of u64", Ret, v);
+    // floats: 12 words are at most 768 bits / 232 decimal digits
+    let f2: Vec<FBig<mode::Zero, 2>> = c.items.iter().map(|x| Fl { sig: x.0.clone(), exp: x.2 as i64 }.fbig(800)).collect();
+    let f10: Vec<FBig<mode::HalfAway, 10>> = c.items.iter().map(|x| Fl { sig: x.0.clone(), exp: x.2 as i64 }.fbig(240)).collect();
+    type F2 = FBig<mode::Zero, 2>;
+    type F10 = FBig<mode::HalfAway, 10>;
+    fold_forms!(out, "FBig<Zero,2>", F2, f2, F2::ZERO, F2::ONE);
+    fold_forms!(out, "FBig<HalfAway,10>", F10, f10, F10::ZERO, F10::ONE);
+    out
+}
+
+// ------------------------------------------------------------------------------------------------
+// Clone / clone_from
+// ------------------------------------------------------------------------------------------------
+
+#[derive(Debug, Clone, Hash, Serialize, Deserialize)]
+struct CloneCase {
+    src: Int,
+    /// the value that is overwritten by clone_from
+    prev: Int,
+    src_den: Nat,
+    prev_den: Nat,
+    exp: i16,
+    big: Nat,
+    /// 0: += 1, 1: <<= 70, 2: *= big, 3: >>= 65 (integers) / /= 2^65 ...
+    mutation: u8,
+}
+
+fn clone_case() -> impl Strategy<Value = CloneCase> {
+    (gen::int(Prof::Medium), 0u8..9, (0u8..gen::N_PATTERNS, any::<u64>(), any::<bool>()), gen::nat_nz(Prof::Small), gen::nat_nz(Prof::Small), -300i16..=300, gen::nat_len(1, 4), 0u8..4).prop_map(
+        |(src, lsel, (pat, seed, pneg), src_den, prev_den, exp, big, mutation)| {
+            let l = src.mag.trimmed_len();
+            // length classes of the overwritten value relative to the source
+            let pl = match lsel {
+                0 => 0,
+                1 => 1,
+                2 => 2,
+                3 => 3,
+                4 => l.saturating_sub(1),
+                5 => l,
+                6 => l + 1,
+                7 => 4 * l + 9, // much larger: the old buffer is too large to be kept
+                _ => 2 * l + 1,
+            };
+            let prev = Nat(gen::expand(pl, pat, seed));
+            CloneCase { src, prev: Int { neg: pneg && pl > 0, mag: prev }, src_den, prev_den, exp, big, mutation }
+        },
+    )
+}
+
+/// Clone contract for one type: `mk_src` / `mk_prev` build fresh values, `model` is the model value
+/// of the source, `mutate` changes a value in place and `mutated` is the model of the result.
+fn clone_contract<T: Clone + ToV>(out: &mut Out, tn: &str, mk_src: &dyn Fn() -> T, mk_prev: &dyn Fn() -> T, model: &V, mutate: &dyn Fn(&mut T), mutated: &V) {
+    FORM_EVALS.fetch_add(5, AtomicOrdering::Relaxed);
+    let r = catch(|| {
+        let mut errs: Vec<String> = Vec::new();
+        let mut chk = |what: &str, got: V, want: &V| {
+            if &got != want {
+                errs.push(format!("{what}: got {got:?} want {want:?}"));
+            }
+        };
+        let src = mk_src();
+        // clone
+        let c = src.clone();
+        chk("clone() value", c.v(), model);
+        // clone_from onto a previous value
+        let mut d = mk_prev();
+        d.clone_from(&src);
+        chk("clone_from value", d.v(), model);
+        chk("source after clone_from", src.v(), model);
+        // mutate the copies, the source must not move
+        mutate(&mut d);
+        chk("clone_from copy after mutation", d.v(), mutated);
+        chk("source after mutating the clone_from copy", src.v(), model);
+        let mut c2 = c.clone();
+        mutate(&mut c2);
+        chk("clone() copy after mutation", c2.v(), mutated);
+        chk("first clone after mutating its clone", c.v(), model);
+        chk("source after mutating a clone", src.v(), model);
+        // mutate / drop the original, the copies must not move
+        let mut s = mk_src();
+        let e = s.clone();
+        let mut f = mk_prev();
+        f.clone_from(&s);
+        mutate(&mut s);
+        chk("original after mutation", s.v(), mutated);
+        chk("clone() copy after mutating the original", e.v(), model);
+        chk("clone_from copy after mutating the original", f.v(), model);
+        drop(s);
+        drop(src);
+        chk("clone() copy after dropping the original", e.v(), model);
+        chk("clone_from copy after dropping the original", f.v(), model);
+        // clone_from twice (the second time onto an equal value) and self-shaped chains
+        let mut g = mk_prev();
+        g.clone_from(&e);
+        g.clone_from(&f);
+        chk("clone_from onto an equal value", g.v(), model);
+        let mut h = e.clone();
+        h.clone_from(&mk_prev());
+        h.clone_from(&g);
+        chk("clone_from back and forth", h.v(), model);
+        errs
+    });
+    match r {
+        Err(m) => out.fail(format!("{tn} Clone: unexpected panic {}", normalise(&m))),
+        Ok(errs) => {
+            if let Some(e) = errs.first() {
+                out.fail(format!("{tn} Clone: {e}"));
+            }
+        }
+    }
+}
+
+fn big_pow(base: u64, k: u64) -> BigInt {
+    BigInt::from(bpow(base, k))
+}
+
+fn clone_forms(c: &CloneCase, _ctx: &Ctx) -> Out {
+    let mut out = Out::new();
+    let (ls, lp) = (c.src.mag.trimmed_len(), c.prev.mag.trimmed_len());
+    out.nontrivial(ls > 1 || lp > 1);
+    out.label(gen::repr_class(ls));
+    out.label(match (lp <= 2, ls <= 2) {
+        (true, true) => "clone_from:inline onto inline",
+        (true, false) => "clone_from:heap onto inline",
+        (false, true) => "clone_from:inline onto heap",
+        (false, false) => {
+            if lp < ls {
+                "clone_from:heap onto smaller heap"
+            } else if lp == ls {
+                "clone_from:heap onto equal-length heap"
+            } else if lp > 4 * ls {
+                "clone_from:heap onto much larger heap"
+            } else {
+                "clone_from:heap onto larger heap"
+            }
+        }
+    });
+    out.label(match c.mutation {
+        0 => "mutation:+= 1",
+        1 => "mutation:<<= 70",
+        2 => "mutation:*= big",
+        _ => "mutation:>>= 65",
+    });
+    let nbig = BigInt::from(c.big.big());
+    let one = BigInt::from(1);
+    // ---- UBig
+    {
+        let x = BigInt::from(c.src.mag.big());
+        let mutated = match c.mutation {
+            0 => &x + &one,
+            1 => &x << 70usize,
+            2 => &x * &nbig,
+            _ => &x >> 65usize,
+        };
+        let big = c.big.ubig();
+        let m = c.mutation;
+        clone_contract::<UBig>(
+            &mut out,
+            "UBig",
+            &|| c.src.mag.ubig(),
+            &|| c.prev.mag.ubig(),
+            &V::I(x.clone()),
+            &|t: &mut UBig| match m {
+                0 => *t += 1u8,
+                1 => *t <<= 70,
+                2 => *t *= &big,
+                _ => *t >>= 65,
+            },
+            &V::I(mutated),
+        );
+    }
+    // ---- IBig
+    {
+        let x = c.src.big();
+        let mutated = match c.mutation {
+            0 => &x + &one,
+            1 => &x << 70usize,
+            2 => &x * &nbig,
+            _ => &x >> 65usize, // num-bigint: floor, like dashu
+        };
+        let big = c.big.ubig();
+        let m = c.mutation;
+        clone_contract::<IBig>(
+            &mut out,
+            "IBig",
+            &|| c.src.ibig(),
+            &|| c.prev.ibig(),
+            &V::I(x.clone()),
+            &|t: &mut IBig| match m {
+                0 => *t += 1u8,
+                1 => *t <<= 70,
+                2 => *t *= &big,
+                _ => *t >>= 65,
+            },
+            &V::I(mutated),
+        );
+    }
+    // ---- RBig / Relaxed: mutations += 1, /= 2^70 (exact), *= big, *= -1/2^65
+    {
+        let q = num_rational::BigRational::new(c.src.big(), BigInt::from(c.src_den.big()));
+        let p70 = BigInt::from(1) << 70usize;
+        let p65 = BigInt::from(1) << 65usize;
+        let qm = match c.mutation {
+            0 => &q + num_rational::BigRational::from_integer(one.clone()),
+            1 => &q / num_rational::BigRational::from_integer(p70.clone()),
+            2 => &q * num_rational::BigRational::from_integer(nbig.clone()),
+            _ => &q * num_rational::BigRational::new(BigInt::from(-1), p65.clone()),
+        };
+        let model = V::Q(q.numer().clone(), q.denom().clone());
+        let mutated = V::Q(qm.numer().clone(), qm.denom().clone());
+        let big = c.big.ubig();
+        let m = c.mutation;
+        macro_rules! rat {
+            ($T:ident, $tn:expr) => {
+                clone_contract::<$T>(
+                    &mut out,
+                    $tn,
+                    &|| $T::from_parts(c.src.ibig(), c.src_den.ubig()),
+                    &|| $T::from_parts(c.prev.ibig(), c.prev_den.ubig()),
+                    &model,
+                    &|t: &mut $T| match m {
+                        0 => *t += $T::ONE,
+                        1 => *t /= $T::from(UBig::ONE << 70),
+                        2 => *t *= $T::from(big.clone()),
+                        _ => *t *= $T::from_parts(IBig::NEG_ONE, UBig::ONE << 65),
+                    },
+                    &mutated,
+                )
+            };
+        }
+        rat!(RBig, "RBig");
+        rat!(Relaxed, "Relaxed");
+    }
+    // ---- FBig at a precision large enough that every mutation is exact
+    {
+        const P: usize = 6000;
+        fn fl_model(base: u64, sig: &BigInt, exp: i64, mutation: u8, nbig: &BigInt) -> (V, V) {
+            let model = canon_float(sig.clone(), exp, base, P);
+            let mutated = match mutation {
+                0 => {
+                    if exp >= 0 {
+                        canon_float(sig * big_pow(base, exp as u64) + BigInt::from(1), 0, base, P)
+                    } else {
+                        canon_float(sig + big_pow(base, (-exp) as u64), exp, base, P)
+                    }
+                }
+                1 => canon_float(sig.clone(), if is0(sig) { 0 } else { exp + 70 }, base, P),
+                2 => canon_float(sig * nbig, exp, base, P),
+                _ => canon_float(-sig, if is0(sig) { 0 } else { exp - 65 }, base, P),
+            };
+            (model, mutated)
+        }
+        let sig = c.src.big();
+        let m = c.mutation;
+        macro_rules! fl {
+            ($R:ty, $B:expr, $tn:expr) => {{
+                type F = FBig<$R, $B>;
+                let (model, mutated) = fl_model($B as u64, &sig, c.exp as i64, m, &nbig);
+                let bigf: F = Fl { sig: Int { neg: false, mag: c.big.clone() }, exp: 0 }.fbig(P);
+                let onef: F = Fl { sig: Int::from_i128(1), exp: 0 }.fbig(P);
+                clone_contract::<F>(
+                    &mut out,
+                    $tn,
+                    &|| Fl { sig: c.src.clone(), exp: c.exp as i64 }.fbig(P),
+                    &|| Fl { sig: c.prev.clone(), exp: -(c.exp as i64) }.fbig(17 + c.prev.mag.trimmed_len() * 64),
+                    &model,
+                    &|t: &mut F| match m {
+                        0 => *t += &onef,
+                        1 => *t <<= 70,
+                        2 => *t *= &bigf,
+                        _ => {
+                            *t <<= -65;
+                            *t *= Sign::Negative;
+                        }
+                    },
+                    &mutated,
+                );
+            }};
+        }
+        fl!(mode::Zero, 2, "FBig<Zero,2>");
+        fl!(mode::HalfAway, 10, "FBig<HalfAway,10>");
+    }
+    // ---- Reduced: clone_from across rings of different sizes
+    {
+        let m1 = if c.src_den.is_zero() { Nat(vec![7]) } else { c.src_den.clone() };
+        let m2 = if c.big.is_zero() { Nat(vec![5]) } else { c.big.clone() };
+        let (ring1, ring2) = (ConstDivisor::new(m1.ubig()), ConstDivisor::new(m2.ubig()));
+        let nm1 = BigInt::from(m1.big());
+        let md = |x: BigInt| -> BigInt { ((x % &nm1) + &nm1) % &nm1 };
+        let x = md(c.src.big());
+        let mutated = match c.mutation {
+            0 => md(&x + &one),
+            1 => md(&x * &x),
+            2 => md(&x * md(nbig.clone())),
+            _ => md(-x.clone()),
+        };
+        let big = c.big.ubig();
+        let m = c.mutation;
+        clone_contract::<Reduced>(
+            &mut out,
+            "Reduced",
+            &|| ring1.reduce(c.src.ibig()),
+            &|| ring2.reduce(c.prev.ibig()),
+            &V::T(vec![V::I(x.clone()), V::I(nm1.clone())]),
+            &|t: &mut Reduced| match m {
+                0 => *t += ring1.reduce(1u8),
+                1 => *t = t.sqr(),
+                2 => *t *= ring1.reduce(big.clone()),
+                _ => *t = -t.clone(),
+            },
+            &V::T(vec![V::I(mutated), V::I(nm1.clone())]),
+        );
+    }
+    out
+}
+
+// ------------------------------------------------------------------------------------------------
+
+/// operation × form inventory: run the oracles on a few generated cases with the recorder on
+fn census(ck: &mut Check) {
+    REC.with(|r| *r.borrow_mut() = Some(BTreeMap::new()));
+    let known = ck.known().clone();
+    let ctx = Ctx { tier: ck.tier, known: &known, strict: false };
+    macro_rules! run {
+        ($strat:expr, $f:expr) => {
+            for c in sample_strategy(&$strat, 15, 80) {
+                let _ = catch(|| $f(&c, &ctx));
+            }
+        };
+    }
+    run!(int_case(), ubig_forms);
+    run!(int_case(), ibig_forms);
+    run!(int_case(), mixed_forms);
+    run!(prim_case(), prim_forms);
+    run!(fl_case(2), float_forms::<mode::Zero, 2>);
+    run!(rat_case(), rational_forms);
+    run!(ring_case(), ring_forms);
+    run!(iter_case(), iter_forms);
+    let m = REC.with(|r| r.borrow_mut().take()).unwrap_or_default();
+    FORM_EVALS.store(0, AtomicOrdering::Relaxed);
+    let pairs: usize = m.values().map(|s| s.len()).sum();
+    let mut j = serde_json::Map::new();
+    for (k, v) in &m {
+        j.insert(k.clone(), serde_json::json!(v.iter().collect::<Vec<_>>()));
+    }
+    ck.extra("matrix_operations", serde_json::json!(m.len()));
+    ck.extra("matrix_op_form_pairs", serde_json::json!(pairs));
+    ck.extra("matrix", serde_json::Value::Object(j));
+    ck.extra("matrix_note", serde_json::json!("float operations are listed once (instantiated for 4 base/mode combinations); Clone contract (clone, clone_from, mutate either side, drop) for UBig, IBig, RBig, Relaxed, FBig x2, Reduced is not part of the table"));
+}
+
 fn main() {
-    let mut ck = Check::new("C15", "wip");
+    let mut ck = Check::new(
+        "C15",
+        "metamorphic call-form matrix: for each operation every available call form (val/ref on either side, op=, primitive or other big type on either side incl. the converted-operand form, trait-method forms div_rem / div_rem_assign / *Euclid / gcd / gcd_ext, sqr/cubic/pow vs products, Neg/Not/Abs val/ref/Sign forms, shifts incl. FBig signed shifts, Context methods vs FBig operators at equal precision and mode, Sum/Product vs folds) is run under catch on the same operands; all forms panic or all return one model value (raw words -> num-bigint; floats: canonical significand/exponent + precision; rationals: reduced numerator/denominator). Operands: structured integers biased to 0-4 words (inline/heap boundary) with some up to 70 words, derived pairs (equal, a±1, multiples), zero divisors; floats in bases 2 and 10, modes Zero and HalfAway, equal / different / unlimited precision, exponent gaps relative to the precision; rationals with shared denominators; ring elements of 1-, 2- and multi-word moduli. Clone: clone and clone_from onto inline / smaller / equal-length / larger / much larger previous values, then either side is mutated or dropped and the other compared with its model. Non-trivial: operands not both <= 1 word (prim: both non-zero); distinct by case digest.",
+    );
+    ck.assume("the value of a form is read through as_words/as_sign_words, Repr::significand/exponent, numerator/denominator, Reduced::residue/modulus");
+    if !ck.is_replay() {
+        census(&mut ck);
+    }
+    ck.sub("ubig_forms", (20_000, 500_000), int_case, ubig_forms);
+    ck.sub("ibig_forms", (20_000, 500_000), int_case, ibig_forms);
+    ck.sub("mixed_forms", (15_000, 375_000), int_case, mixed_forms);
+    ck.sub("prim_forms", (15_000, 375_000), prim_case, prim_forms);
     ck.sub("float_forms_b2_zero", (8_000, 200_000), || fl_case(2), float_forms::<mode::Zero, 2>);
+    ck.sub("float_forms_b2_halfaway", (6_000, 150_000), || fl_case(2), float_forms::<mode::HalfAway, 2>);
+    ck.sub("float_forms_b10_zero", (6_000, 150_000), || fl_case(10), float_forms::<mode::Zero, 10>);
     ck.sub("float_forms_b10_halfaway", (8_000, 200_000), || fl_case(10), float_forms::<mode::HalfAway, 10>);
+    ck.sub("rational_forms", (8_000, 200_000), rat_case, rational_forms);
+    ck.sub("ring_forms", (10_000, 250_000), ring_case, ring_forms);
+    ck.sub("iter_forms", (6_000, 150_000), iter_case, iter_forms);
+    ck.sub("clone_forms", (15_000, 375_000), clone_case, clone_forms);
+    ck.extra("form_evaluations", serde_json::json!(FORM_EVALS.load(AtomicOrdering::Relaxed)));
     ck.finish();
 }
